@@ -16,6 +16,7 @@ import Mathlib.Analysis.Calculus.Deriv.Mul
 import CompmechVerif.Gen.Panel.Plate
 import CompmechVerif.Gen.Panel.CPanel
 import CompmechVerif.Core.OpSpecTactics
+import CompmechVerif.Core.OpSpecLemmas
 import Mathlib.Tactic.FinCases
 import Mathlib.Data.Fintype.Basic
 
@@ -228,4 +229,83 @@ theorem kT_is_derivative_cpanel (X : NCtx ℝ) (ha : X.a ≠ 0) (hb : X.b ≠ 0)
   exact hasDerivAt_of_cubic _ _ _ R₂ R₃ h
 
 end C08
+
+/-! ### symmetry of the tangent, and the lift from one point to the Gauss sum -/
+
+namespace C08
+open Compmech.Gen.PanelNum Compmech.Gen
+variable {K : Type} [Field K] [CharZero K]
+
+/-- the point with the roles of the row and the column degree of freedom exchanged -/
+def NCtx.swap (X : NCtx K) : NCtx K := { X with E := fun dir d f i => X.E dir d f i.swap }
+
+omit [CharZero K] in
+theorem toP_swap (X : NCtx K) : (NCtx.swap X).toP = X.toP.swap := by
+  simp only [NCtx.swap, NCtx.toP, PCtx.swap, Idx.swap]
+  congr 1
+  funext dir _ d₁ f₁ i₁ d₂ f₂ i₂
+  exact mul_comm _ _
+
+/-- the tangent stiffness integrand `kL + kG` at ANY state is symmetric: the `(B, A)` entry (computed by the same
+generated formulas with the roles of the two degrees of freedom exchanged) equals the `(A, B)` entry -/
+theorem kT_symm_plate (X : NCtx K) (ha : X.a ≠ 0) (hb : X.b ≠ 0) (hF : IsABD X.F) (ro co : Fin 3) :
+    Plate.fkL_num.entry ro co X + Plate.fkG_num.entry ro co X =
+      Plate.fkL_num.entry co ro (NCtx.swap X) + Plate.fkG_num.entry co ro (NCtx.swap X) := by
+  rw [kL_entry_plate X ha hb hF, kG_entry_plate X ha hb, kL_entry_plate (NCtx.swap X) ha hb hF,
+    kG_entry_plate (NCtx.swap X) ha hb, toP_swap]
+  have h1 := hessian_swap X.toP .full .full (nlOps X (plateOps X.toP)) X.F hF.symm (fld3 ro) (fld3 co)
+  have h2 := hessian_swap X.toP .full .full (gradOps X.toP) (prestressW X.toP)
+    (fun p q => by fin_cases p <;> fin_cases q <;> rfl) (fld3 ro) (fld3 co)
+  rw [← h1, ← h2]
+  rfl
+
+theorem kT_symm_cpanel (X : NCtx K) (ha : X.a ≠ 0) (hb : X.b ≠ 0) (hr : X.r ≠ 0) (hF : IsABD X.F) (ro co : Fin 3) :
+    CPanel.fkL_num.entry ro co X + CPanel.fkG_num.entry ro co X =
+      CPanel.fkL_num.entry co ro (NCtx.swap X) + CPanel.fkG_num.entry co ro (NCtx.swap X) := by
+  rw [kL_entry_cpanel X ha hb hr hF, kG_entry_cpanel X ha hb, kL_entry_cpanel (NCtx.swap X) ha hb hr hF,
+    kG_entry_cpanel (NCtx.swap X) ha hb, toP_swap]
+  have h1 := hessian_swap X.toP .full .full (nlOps X (cpanelOps X.toP)) X.F hF.symm (fld3 ro) (fld3 co)
+  have h2 := hessian_swap X.toP .full .full (gradOps X.toP) (prestressW X.toP)
+    (fun p q => by fin_cases p <;> fin_cases q <;> rfl) (fld3 ro) (fld3 co)
+  rw [← h1, ← h2]
+  rfl
+
+end C08
+
+/-- a finite sum of functions each differentiable at 0 has the sum of the derivatives as derivative -/
+theorem hasDerivAt_list_sum {ι : Type} (l : List ι) (f : ι → ℝ → ℝ) (k : ι → ℝ)
+    (h : ∀ p ∈ l, HasDerivAt (f p) (k p) 0) :
+    HasDerivAt (fun t => (l.map fun p => f p t).sum) (l.map k).sum 0 := by
+  induction l with
+  | nil => simpa using hasDerivAt_const (0:ℝ) (0:ℝ)
+  | cons p ps ih =>
+    simp only [List.map_cons, List.sum_cons]
+    exact (h p (by simp)).fun_add (ih fun q hq => h q (by simp [hq]))
+
+namespace C08
+open Compmech.Gen.PanelNum
+
+/-- THE WHOLE QUADRATURE: for any list of integration points (each with its own basis values, weight, laminate and
+state), the sum over the points of the tangent integrands is the derivative of the sum over the points of the
+internal-force integrands with respect to the amplitude of degree of freedom `B` — i.e. the assembled `kT[A, B]` is
+`∂ fint[A] / ∂ c_B` exactly, whatever the number and position of the points. -/
+theorem kT_is_derivative_gauss_sum_plate (pts : List (NCtx ℝ × PtState ℝ))
+    (hpts : ∀ p ∈ pts, p.1.a ≠ 0 ∧ p.1.b ≠ 0) (α β : Fin 3) :
+    HasDerivAt
+      (fun t : ℝ => (pts.map fun p => PlateNum.fint p.1 (p.2.perturb p.1 (plateOps p.1.toP) (fld3 β) t) α).sum)
+      (pts.map fun p => Plate.fkL_num.entry α β { p.1 with wxi := p.2.wxi, weta := p.2.weta }
+        + Plate.fkG_num.entry α β (PlateNum.withState p.1 p.2)).sum 0 :=
+  hasDerivAt_list_sum pts _ _ fun p hp => kT_is_derivative_plate p.1 (hpts p hp).1 (hpts p hp).2 p.2 α β
+
+theorem kT_is_derivative_gauss_sum_cpanel (pts : List (NCtx ℝ × PtState ℝ))
+    (hpts : ∀ p ∈ pts, p.1.a ≠ 0 ∧ p.1.b ≠ 0 ∧ p.1.r ≠ 0) (α β : Fin 3) :
+    HasDerivAt
+      (fun t : ℝ => (pts.map fun p => CPanelNum.fint p.1 (p.2.perturb p.1 (cpanelOps p.1.toP) (fld3 β) t) α).sum)
+      (pts.map fun p => CPanel.fkL_num.entry α β { p.1 with wxi := p.2.wxi, weta := p.2.weta }
+        + CPanel.fkG_num.entry α β (CPanelNum.withState p.1 p.2)).sum 0 :=
+  hasDerivAt_list_sum pts _ _ fun p hp =>
+    kT_is_derivative_cpanel p.1 (hpts p hp).1 (hpts p hp).2.1 (hpts p hp).2.2 p.2 α β
+
+end C08
+
 end Compmech.Panel
